@@ -144,3 +144,6 @@ def run_proofs(ctx):
                "A-dict: dicts iterate in insertion order; keys pairwise distinct",
                "A-alias: the private _mutations dict is not aliased by a supplied layer")
     run_contracts(ctx, cs, reg, workloads=workloads(), concrete_env=CONCRETE_ENV)
+    from vf.proofs.terms import run_terms
+
+    run_terms(ctx, "C19")
